@@ -109,6 +109,7 @@ def check(scn, hist):
     e3_ops = set()
     op_kind = {}
     cur = {b['port']: b for b in scn['world']['boards']}     # device currently behind each port name
+    obj_min = {}                                              # object -> its own (raised) minimum, if any
     plugged = {b['port']: b.get('plugged', True) for b in scn['world']['boards']}
     open_fails = {b['port']: b.get('open_fails', False) for b in scn['world']['boards']}
     for i, rec in enumerate(hist.ops):
@@ -117,6 +118,10 @@ def check(scn, hist):
         op_kind[oid] = op['op']
         if op['op'] == 'lopen':
             slot_port[op['slot']] = op['port']
+        elif op['op'] == 'new':
+            obj_min.pop(op['obj'], None)
+            if op.get('min_version') and triple(op['min_version']):
+                obj_min[op['obj']] = max(triple(op['min_version']), MIN)
         elif op['op'] == 'env':
             if op['what'] == 'unplug':
                 plugged[op['port']] = False
@@ -133,7 +138,8 @@ def check(scn, hist):
             if m == 'connect':
                 port = a['port_name']
                 spec = cur.get(port) if port is not None else None
-                supported = bool(spec is not None and spec.get('kind', 'ebb') == 'ebb' and fw3(spec) >= MIN
+                my_min = obj_min.get(op['obj'], MIN)
+                supported = bool(spec is not None and spec.get('kind', 'ebb') == 'ebb' and fw3(spec) >= my_min
                                  and 'version_text' not in spec)
                 if rec['exc'] is not None:
                     # after verification connect() lets a SerialException propagate today (observation O1);
@@ -212,12 +218,15 @@ def check(scn, hist):
                     out.append(V(PROP, 'gate_blocks_supported', fn, oid,
                                  '%s not sent to firmware %r (>= %r): wire %r' % (name, spec['fw'], gate, reqs)))
     # device-side invariant: an unsupported device gets nothing but version probes from the EBB3 layer
+    op_obj = {rec['id']: rec['op'].get('obj') for rec in hist.ops if rec['op']['op'] == 'call'}
     for dev in hist.all_devices:
         spec = dev['spec']
-        supported = spec.get('kind', 'ebb') == 'ebb' and fw3(spec) >= MIN and 'version_text' not in spec
-        if supported:
-            continue
+        is_plain_ebb = spec.get('kind', 'ebb') == 'ebb' and 'version_text' not in spec
         for reqno, op_id, text, lines in dev['log']:
+            # (what counts as supported is decided by the minimum of the object that is talking)
+            supported = is_plain_ebb and fw3(spec) >= _min_at(scn, op_obj.get(op_id), op_id, MIN)
+            if supported:
+                continue
             if op_id in e3_ops and text.strip().lower() != 'v':
                 m = '?'
                 for rec in hist.ops:
@@ -227,6 +236,19 @@ def check(scn, hist):
                              'unsupported %s received %r from the EBB3 layer' % (_descr(spec), text)))
                 break
     return out
+
+
+def _min_at(scn, obj, op_id, default):
+    """The minimum firmware the object `obj` insisted on when op `op_id` ran (its latest 'new' op before it)."""
+    best = default
+    for op in scn['ops']:
+        if op['id'] >= op_id:
+            break
+        if op['op'] == 'new' and op.get('obj') == obj:
+            best = default
+            if op.get('min_version') and triple(op['min_version']):
+                best = max(triple(op['min_version']), default)
+    return best
 
 
 def _descr(spec):
@@ -377,7 +399,8 @@ def fstr(t):
 
 
 NON_EBB_LINES = ['OK', 'ERROR', 'AT+GMR: 1.0', '!8 Err: Unknown command', 'Firmware Version 3.0.2', 'garbage 3.0.2',
-                 'ebb firmware version 3.0.2']
+                 'ebb firmware version 3.0.2', '{"error": "unknown command", "v": "3.0.2"}', '{}', '{', '100% ready %s',
+                 '{0} {1}']
 
 HANDSHAKES = ['prompt', 'prompt', 'late1', 'late_both', 'late2_only', 'absent1', 'absent_both', 'nonebb1',
               'nonebb_both', 'raise', 'unplug', 'err1']
@@ -447,6 +470,12 @@ def gen_connect(rng, idx):
     world = {'boards': boards}
     nobj = rng.choice([1, 1, 2])
     ops = [{'op': 'new', 'obj': k} for k in range(nobj)]
+    for o in ops:
+        if rng.random() < 0.15:
+            t = list(MIN)
+            i = rng.randrange(3)
+            t[i] += rng.choice([1, 8, 10])
+            o['min_version'] = fstr(t)       # an application that insists on newer firmware than the library
     nth = [0] * nobj
     plans = {}
     for _ in range(rng.randint(1, 8)):
@@ -641,6 +670,7 @@ def sweep_cells(tier):
     cells += [['swap_gate', i] for i in range(len(SWAP_PAIRS))]
     cells += [['two_ports', i] for i in range(len(SWAP_PAIRS))]
     cells += [['swap_connect', k] for k in ('old', 'min-1', 'foreign', 'silent', 'multi_ok')]
+    cells += [['raised_min', k] for k in range(3)]
     return cells
 
 
@@ -755,6 +785,23 @@ def sweep_expand(cell):
     if what == 'swap_gate':
         for scn in _swap_gate(x):
             yield scn
+        return
+    if what == 'raised_min':
+        want = [[MIN[0], MIN[1], MIN[2] + 8], [MIN[0], MIN[1] + 1, 0], [MIN[0] + 1, 0, 0]][x]
+        for fw in ([MIN[0], MIN[1], MIN[2]], [want[0], want[1], max(0, want[2] - 1)] if want[2] else
+                   [MIN[0], MIN[1], MIN[2] + 10], list(want), [want[0], want[1], want[2] + 1]):
+            spec = ebb_spec('/dev/ttyACM0', fw=fw, nick='R', style='linux')
+            tail = [call(0, 'xy_move', [1, 2, 3]), call(0, 'query', ['QS']), call(0, 'var_write', [1, 2])]
+            ops = [{'op': 'new', 'obj': 0, 'min_version': fstr(want)}]
+            for n in (1, 2):
+                c = call(0, 'connect')
+                c['nth'] = n
+                ops += [c] + [dict(t) for t in tail]
+            ops += [call(0, 'disconnect')]
+            c = call(0, 'connect')
+            c['nth'] = 3
+            ops += [c] + [dict(t) for t in tail]
+            yield {'prop': PROP, 'world': {'boards': [spec]}, 'ops': mk_ops(ops), 'faults': {}, 'snap_dev': False}
         return
     if what == 'two_ports':
         for scn in _two_ports(x):
